@@ -190,7 +190,8 @@ def main(argv=None):
             # that a broken implementation may have made arbitrarily large.
             r = results[i]
             if not tasks[i].get("canary") and not stop.is_set() and any(
-                    known_match(prop, sig_of(tasks[i], v["label"]), known) is None for v in r.get("violations", [])):
+                    v["label"] != "nontermination" and known_match(prop, sig_of(tasks[i], v["label"]), known) is None
+                    for v in r.get("violations", [])):  # a tripped path alarm proves nothing before its replay
                 tasks_with_new += 1
                 if tasks_with_new >= stop_after:
                     stop.set()
@@ -263,7 +264,7 @@ def finish(prop, tier, seed, mod, tasks, results, t0):
             problems.append(f"task {name}: harness error {r['harness_errors'][0][-600:]}")
         if r.get("xval_mismatch"):
             problems.append(f"task {name}: symbolic/concrete divergence {json.dumps(r['xval_mismatch'][0], default=str)[:600]}")
-        if r.get("asserted", 0) == 0 and not task.get("no_assert_ok"):
+        if r.get("asserted", 0) == 0 and not task.get("no_assert_ok") and not r.get("stopped"):
             problems.append(f"task {name}: no assertion reached (vacuous)")
         tot["violations"] += r.get("violation_count", 0)
         for v in r.get("violations", []):
